@@ -16,6 +16,18 @@ func main() {
 		os.Exit(2)
 	}
 	switch os.Args[1] {
+	case "run":
+		if len(os.Args) < 3 {
+			fmt.Println("usage: vcheck run <ID> [--tier quick|thorough]")
+			os.Exit(2)
+		}
+		id := os.Args[2]
+		if _, ok := dynProps[id]; ok {
+			runDynamic(id, os.Args[3:])
+			return
+		}
+		fmt.Println("no check for property", id)
+		os.Exit(2)
 	case "corpus":
 		cmdCorpus(os.Args[2:])
 	case "explore":
